@@ -592,6 +592,9 @@ func (s *socket) doFlush() {
 		}
 		s.bufMu.Unlock()
 		if len(wbuf) > 0 {
+			if verifhook.Enabled {
+				verifhook.Point("socket.doFlush.batchTaken", s, wbuf)
+			}
 			socket_log.Debug("flushing buffer to transport")
 			s.Emit("flush", wbuf)
 			s.server.Emit("flush", s, wbuf)
